@@ -25,6 +25,8 @@ RULE = (
     "non-trivial = a run in which the server sent at least one datagram to a not-yet-validated address; distinct = hash(size "
     "configuration, chain, fate multiset, spoof/migration pattern)."
 )
+RULE += ' Late addition: pattern big-client-hello-with-hole (ClientHello of 3-12 Initial packets, one held back or lost); short Initial datagrams are attributed to the amplification budget, the congestion window, or neither (= violation).'
+
 ASSUMPTIONS = [
     "an address counts as validated for the server (conservatively late) once an authentic Handshake packet from it was delivered, or "
     "a PATH_RESPONSE echoing a PATH_CHALLENGE the server sent to that address was delivered",
